@@ -466,11 +466,6 @@ fn main() -> ! {
             "    echo -e 'output result = inputs.x + inputs.y' | blots --evaluate -i '{{\"x\": 42, \"y\": \"hello\"}}'"
         );
 
-        // If outputs were collected, write them before exiting
-        if !outputs.is_empty() || output_path.is_some() {
-            write_outputs(&outputs, output_path.as_ref());
-        }
-
         std::process::exit(1);
     }
 
